@@ -191,6 +191,8 @@ def _search_shard(pid, tier, seed, shard, nshards, deadline):
             except Violation as v:
                 return dict(acc.export(), failure=casemod.to_jsonable(case),
                             violation=(v.kind, str(v.detail)[:2000]))
+        if getattr(mod, 'ENUM_TRUNCATED', False):
+            complete = False
         acc.exhaustive_parts['enumerated_in_shard_%d' % shard] = \
             {'cases': n, 'complete': complete}
 
